@@ -34,10 +34,12 @@ import (
 	"strings"
 	"sync"
 	"syscall"
+	"time"
 
 	"github.com/syndtr/goleveldb/leveldb"
 	"github.com/syndtr/goleveldb/leveldb/opt"
 	"github.com/syndtr/goleveldb/leveldb/storage"
+	"github.com/syndtr/goleveldb/leveldb/util"
 	"verifharness/lib/vlib"
 )
 
@@ -1533,64 +1535,315 @@ func (k *fsK) life(thorough bool) {
 	}
 }
 
-// danglingPendingProbe reproduces, on the real storage and a real DB, the known finding
-// pending-file-outlives-failed-setmeta: a setMeta that fails after writing CURRENT.<n> (rename or directory sync
-// error) leaves that file behind; newManifest then removes MANIFEST-<n> and gives the number back to the
-// allocator.  The file is harmless while MANIFEST-<n> does not exist, but as soon as a file of that name is
-// created again (the next newManifest, before it has written anything) GetMeta answers the unfinished manifest
-// and the DB cannot be opened.  Returns the description when the finding is present.
-func (k *fsK) danglingPendingProbe() (desc string) {
-	dir := k.tmp()
-	defer os.RemoveAll(dir)
-	db, err := leveldb.OpenFile(dir, nil)
-	if err != nil {
-		k.fail("dangling-pending probe: OpenFile: %v", err)
-		return ""
+// ------------------------------------------------------------------------------------------------ a failed SetMeta in a live session
+
+// sessionChild is the process of sessionFaultChecks: a real DB on the real file storage whose every commit starts
+// a new manifest (MaxManifestFileSize 1).  CURRENT is made immutable (chattr +i), so the rename at the end of
+// the next setMeta fails AFTER the pending file CURRENT.<n> was written and synced; newManifest removes
+// MANIFEST-<n> and the flush is retried by the compaction loop.  When the parent says go (it has attached
+// strace by then) the flag is cleared and the retried commit runs — until strace kills the process.
+func sessionChild(dir string) {
+	fail := func(code int, f string, a ...interface{}) {
+		fmt.Fprintf(os.Stderr, f+"\n", a...)
+		os.Exit(code)
 	}
-	for i := 0; i < 20; i++ {
-		db.Put([]byte(fmt.Sprintf("k%02d", i)), []byte("v"), nil)
+	o := &opt.Options{MaxManifestFileSize: 1, WriteBuffer: 64 << 10}
+	db, err := leveldb.OpenFile(dir, o)
+	if err != nil {
+		fail(4, "OpenFile: %v", err)
+	}
+	put := func(lo, hi int) {
+		for i := lo; i < hi; i++ {
+			if err := db.Put([]byte(fmt.Sprintf("k%02d", i)), []byte(fmt.Sprintf("v%02d", i)), &opt.WriteOptions{Sync: true}); err != nil {
+				fail(4, "Put: %v", err)
+			}
+		}
+	}
+	put(0, 20)
+	if err := db.CompactRange(util.Range{}); err != nil {
+		fail(4, "CompactRange: %v", err)
+	}
+	leveldb.VerifWaitIdle(db, 5*time.Second)
+	cur := filepath.Join(dir, "CURRENT")
+	if out, err := exec.Command("chattr", "+i", cur).CombinedOutput(); err != nil {
+		fail(5, "chattr +i: %v %s", err, out)
+	}
+	put(20, 30)
+	done := make(chan error, 1)
+	go func() { done <- db.CompactRange(util.Range{}) }()
+	// wait for the failed setMeta: a pending file whose manifest is gone
+	deadline := time.Now().Add(8 * time.Second)
+	for seen := false; !seen; {
+		if time.Now().After(deadline) {
+			exec.Command("chattr", "-i", cur).Run()
+			fail(6, "the commit did not fail")
+		}
+		ents, _ := os.ReadDir(dir)
+		for _, e := range ents {
+			var n int64
+			if _, err := fmt.Sscanf(e.Name(), "CURRENT.%d", &n); err == nil && e.Name() != "CURRENT.bak" {
+				if _, err := os.Stat(filepath.Join(dir, manifestName(n))); err != nil {
+					seen = true
+				}
+			}
+		}
+		time.Sleep(2 * time.Millisecond)
+	}
+	os.WriteFile(dir+".ready", nil, 0o644)
+	for deadline = time.Now().Add(15 * time.Second); ; time.Sleep(time.Millisecond) {
+		if _, err := os.Stat(dir + ".go"); err == nil {
+			break
+		}
+		if time.Now().After(deadline) {
+			exec.Command("chattr", "-i", cur).Run()
+			fail(7, "no go")
+		}
+	}
+	exec.Command("chattr", "-i", cur).Run()
+	select {
+	case <-done: // the flush that met the fault: it fails, or was retried by the compaction loop
+	case <-time.After(30 * time.Second):
+		fail(8, "the flush that met the fault did not return")
+	}
+	// the DB commits again: the compaction loop retries the flush (back-off 1 s); CompactRange reports the
+	// transient error until the retry went through
+	for t0 := time.Now(); ; time.Sleep(50 * time.Millisecond) {
+		err := db.CompactRange(util.Range{})
+		if err == nil {
+			break
+		}
+		if time.Since(t0) > 25*time.Second {
+			fail(8, "the commit after the fault was lifted: %v", err)
+		}
+	}
+	put(30, 31)
+	if err := db.CompactRange(util.Range{}); err != nil {
+		fail(8, "the second commit after the fault was lifted: %v", err)
 	}
 	if err := db.Close(); err != nil {
-		k.fail("dangling-pending probe: Close: %v", err)
-		return ""
+		fail(8, "Close: %v", err)
 	}
-	meta := func() (storage.FileDesc, error) {
-		st, err := storage.OpenFile(dir, true)
-		if err != nil {
-			return storage.FileDesc{}, err
+	os.Exit(0)
+}
+
+// sessionFaultChecks: (P) through the REAL session on the real file storage.  After a SetMeta that failed once
+// its pending file was written, the DB commits again; the process is killed entering the first openat / write /
+// fsync / renameat / unlinkat on the new manifests, on the CURRENT family, or on the directory (one run per
+// combination, plus one run that is not killed).  Whatever is left: GetMeta answers a manifest leveldb.OpenFile
+// can open, read-only and read-write, and every write acknowledged with Sync is there.
+func (k *fsK) sessionFaultChecks() {
+	exe, err := os.Executable()
+	if err != nil || k.stats["fsk_strace_unavailable"] > 0 {
+		return
+	}
+	if _, err := exec.LookPath("chattr"); err != nil {
+		k.notes = append(k.notes, "chattr is not installed: the failed-SetMeta-in-a-live-session scenario is not run")
+		return
+	}
+	type variant struct{ sc, group string }
+	vars := []variant{{"", ""}}
+	for _, sc := range []string{"openat", "write", "fsync", "renameat", "unlinkat"} {
+		for _, g := range []string{"manifest", "current", "dir"} {
+			vars = append(vars, variant{sc, g})
 		}
-		defer st.Close()
-		return st.GetMeta()
 	}
-	cur, err := meta()
-	if err != nil {
-		k.fail("dangling-pending probe: GetMeta of a cleanly closed DB: %v", err)
-		return ""
+	type outc struct {
+		fail, note string
+		killed    bool
 	}
-	n := cur.Num + 50
-	os.WriteFile(filepath.Join(dir, fmt.Sprintf("CURRENT.%d", n)), []byte(manifestName(n)+"\n"), 0o644)
-	if fd, err := meta(); err != nil || fd != cur {
-		k.fail("a pending CURRENT.%d naming a manifest that does not exist changes GetMeta: (%v, %v), expected %v", n, fd, err, cur)
-		return ""
+	res := make([]outc, len(vars))
+	var wg sync.WaitGroup
+	for vi, v := range vars {
+		wg.Add(1)
+		go func(vi int, v variant) {
+			defer wg.Done()
+			o := &res[vi]
+			dir := filepath.Join(k.root, fmt.Sprintf("sess%02d", vi))
+			defer func() {
+				exec.Command("chattr", "-i", filepath.Join(dir, "CURRENT")).Run()
+				os.RemoveAll(dir)
+				os.Remove(dir + ".ready")
+				os.Remove(dir + ".go")
+			}()
+			child := exec.Command(exe)
+			child.Env = append(os.Environ(), "C18_FS_SESSION="+dir)
+			var cerr bytes.Buffer
+			child.Stderr = &cerr
+			if err := child.Start(); err != nil {
+				o.fail = "cannot start the session child: " + err.Error()
+				return
+			}
+			exited := make(chan error, 1)
+			go func() { exited <- child.Wait() }()
+			// wait for the failed SetMeta
+			ready := false
+			for t0 := time.Now(); time.Since(t0) < 20*time.Second && !ready; time.Sleep(2 * time.Millisecond) {
+				if _, err := os.Stat(dir + ".ready"); err == nil {
+					ready = true
+				}
+				select {
+				case err := <-exited:
+					code := -1
+					if ee, ok := err.(*exec.ExitError); ok {
+						code = ee.ExitCode()
+					}
+					if code == 5 {
+						o.note = "chattr +i is not supported on the temporary directory: the failed-SetMeta-in-a-live-session scenario is not run (" + strings.TrimSpace(cerr.String()) + ")"
+					} else {
+						o.fail = fmt.Sprintf("the session child stopped before the fault (exit %d): %s", code, strings.TrimSpace(cerr.String()))
+					}
+					return
+				default:
+				}
+			}
+			if !ready {
+				child.Process.Kill()
+				o.fail = "the session child never reached the failed SetMeta"
+				return
+			}
+			pre, _ := listDir(dir)
+			var tracer *exec.Cmd
+			if v.sc != "" {
+				var curNum int64
+				for _, e := range pre {
+					if e.Name == "CURRENT" {
+						fmt.Sscanf(unhexs(e.Data), "MANIFEST-%d", &curNum)
+					}
+				}
+				args := []string{"-f", "-p", strconv.Itoa(child.Process.Pid), "-o", "/dev/null"}
+				switch v.group {
+				case "manifest":
+					for n := curNum + 1; n <= curNum+24; n++ {
+						args = append(args, "-P", filepath.Join(dir, manifestName(n)))
+					}
+				case "current":
+					args = append(args, "-P", filepath.Join(dir, "CURRENT"), "-P", filepath.Join(dir, "CURRENT.bak"))
+					for n := curNum + 1; n <= curNum+24; n++ {
+						args = append(args, "-P", filepath.Join(dir, fmt.Sprintf("CURRENT.%d", n)))
+					}
+				default:
+					args = append(args, "-P", dir)
+				}
+				args = append(args, "-e", "trace="+v.sc, "-e", "inject="+v.sc+":signal=SIGKILL")
+				tracer = exec.Command("strace", args...)
+				stderr, _ := tracer.StderrPipe()
+				if err := tracer.Start(); err != nil {
+					child.Process.Kill()
+					o.fail = "cannot attach strace: " + err.Error()
+					return
+				}
+				sc := bufio.NewScanner(stderr)
+				att := make(chan bool, 1)
+				go func() {
+					sent := false
+					for sc.Scan() {
+						if !sent && strings.Contains(sc.Text(), "attached") {
+							att <- true
+							sent = true
+						}
+					}
+					if !sent {
+						att <- false
+					}
+				}()
+				select {
+				case ok := <-att:
+					if !ok {
+						child.Process.Kill()
+						o.note = "strace could not attach to the session child: kill points of the retried commit not examined"
+						return
+					}
+				case <-time.After(10 * time.Second):
+					child.Process.Kill()
+					tracer.Process.Kill()
+					o.fail = "strace did not attach in time"
+					return
+				}
+				time.Sleep(30 * time.Millisecond) // the remaining threads
+			}
+			os.WriteFile(dir+".go", nil, 0o644)
+			var werr error
+			select {
+			case werr = <-exited:
+			case <-time.After(60 * time.Second):
+				child.Process.Kill()
+				o.fail = "the session child hangs after the fault was lifted"
+				return
+			}
+			if tracer != nil {
+				tracer.Wait()
+			}
+			if werr != nil {
+				if ee, ok := werr.(*exec.ExitError); ok && ee.ExitCode() >= 0 {
+					o.fail = fmt.Sprintf("after a SetMeta that failed once (immutable CURRENT) the session did not recover (exit %d): %s", ee.ExitCode(), strings.TrimSpace(cerr.String()))
+					return
+				}
+				o.killed = true
+			}
+			exec.Command("chattr", "-i", filepath.Join(dir, "CURRENT")).Run()
+			left, _ := listDir(dir)
+			where := "the session completed"
+			if o.killed {
+				where = fmt.Sprintf("the process was killed entering its first %s on the %s files of the retried commit", v.sc, v.group)
+			}
+			ctx := fmt.Sprintf("live session, SetMeta failed after writing its pending file (directory then: %s), the commit was retried, %s; directory left: %s", namesOf(pre), where, namesOf(left))
+			st, err := storage.OpenFile(dir, true)
+			if err != nil {
+				o.fail = ctx + ": storage.OpenFile: " + err.Error()
+				return
+			}
+			fd, gerr := st.GetMeta()
+			st.Close()
+			if gerr != nil {
+				o.fail = fmt.Sprintf("%s: GetMeta: %v", ctx, gerr)
+				return
+			}
+			for _, ro := range []bool{true, false} {
+				d2, oerr := leveldb.OpenFile(dir, &opt.Options{ReadOnly: ro, ErrorIfMissing: true})
+				if oerr != nil {
+					o.fail = fmt.Sprintf("%s: GetMeta answers %v and leveldb.OpenFile(ReadOnly=%v) fails: %v", ctx, fd, ro, oerr)
+					return
+				}
+				for i := 0; i < 30; i++ {
+					if v, err := d2.Get([]byte(fmt.Sprintf("k%02d", i)), nil); err != nil || string(v) != fmt.Sprintf("v%02d", i) {
+						o.fail = fmt.Sprintf("%s: the write k%02d acknowledged with Sync reads (%q, %v) after OpenFile(ReadOnly=%v)", ctx, i, v, err, ro)
+						break
+					}
+				}
+				d2.Close()
+				if o.fail != "" {
+					return
+				}
+			}
+		}(vi, v)
 	}
-	// what Create(MANIFEST-<n>) does first
-	os.WriteFile(filepath.Join(dir, manifestName(n)), nil, 0o644)
-	fd, err := meta()
-	ro := &opt.Options{ReadOnly: true, ErrorIfMissing: true}
-	d2, oerr := leveldb.OpenFile(dir, ro)
-	if d2 != nil {
-		d2.Close()
+	wg.Wait()
+	for _, o := range res {
+		if o.fail != "" {
+			k.fail("%s", o.fail)
+		}
+		if o.note != "" && len(k.notes) < 6 {
+			k.notes = append(k.notes, o.note)
+		}
+		if o.note == "" && o.fail == "" {
+			k.stats["fsk_session_fault_runs"]++
+			if o.killed {
+				k.stats["fsk_session_fault_kill_points"]++
+			}
+		}
 	}
-	switch {
-	case err == nil && fd == cur && oerr == nil:
-		return "" // not present
-	case err == nil && fd.Type == storage.TypeManifest && fd.Num == n && oerr != nil:
-		return fmt.Sprintf("directory of a cleanly closed DB (CURRENT -> %v) plus CURRENT.%d = %q left by a failed setMeta: harmless until an EMPTY file %s appears (newManifest re-using the number, before it has written a record); then GetMeta answers %v and leveldb.OpenFile fails with %q although %v and all its files are intact",
-			cur, n, manifestName(n)+"\n", manifestName(n), fd, oerr, cur)
-	default:
-		k.fail("dangling-pending probe: unexpected outcome: GetMeta (%v, %v), OpenFile %v", fd, err, oerr)
-		return ""
+}
+
+func namesOf(l []dirEnt) string {
+	var n []string
+	for _, e := range l {
+		if strings.HasPrefix(e.Name, "CURRENT") {
+			n = append(n, fmt.Sprintf("%s=%q", e.Name, unhexs(e.Data)))
+		} else {
+			n = append(n, e.Name)
+		}
 	}
+	return "{" + strings.Join(n, " ") + "}"
 }
 
 // fsModelChecks runs everything above; the (K) cases it returns are appended to the check's case files.
@@ -1609,8 +1862,6 @@ func fsModelChecks(r *vlib.RNG, base string, thorough bool) (cases []kcase, fail
 	k.crashStates(crash, thorough)
 	k.killPoints(crash, thorough)
 	k.life(thorough)
-	if d := k.danglingPendingProbe(); d != "" {
-		known["pending-file-outlives-failed-setmeta"] = d
-	}
+	k.sessionFaultChecks()
 	return k.cases, k.fails, k.stats, k.notes, known
 }
